@@ -237,6 +237,10 @@ def run_login(run, rng, pv, order, threshold, terminal, server_id, auth,
                         state['errors'].append('expected encryption response, '
                                                'got %s id %d' % (n2, fr[0]))
                         return
+                    # a real server asks the session service "has this user
+                    # joined?" the moment the response is in: how many join
+                    # requests has the service seen by now?
+                    state['session_requests_at_response'] = len(ygg.requests)
                     break
                 from cryptography.hazmat.primitives.asymmetric.padding import \
                     PKCS1v15
@@ -415,6 +419,18 @@ def run_login(run, rng, pv, order, threshold, terminal, server_id, auth,
             conn.register_packet_listener(
                 flush_deferred, serverbound.login.EncryptionResponsePacket,
                 outgoing=True, early=rng.random() < 0.5)
+        # the session service must have seen the join by the time the client
+        # starts writing its encryption response (a server verifies the user
+        # the moment the response is in); observed in the client's own thread,
+        # before the write: no race with the server side of the harness
+        from minecraft.networking.packets import serverbound as _sbl
+
+        def before_response(_p):
+            state['session_requests_when_response_written'] = \
+                len(ygg.requests)
+        conn.register_packet_listener(
+            before_response, _sbl.login.EncryptionResponsePacket,
+            outgoing=True, early=True)
         if slow_encryption_listener:
             from minecraft.networking.packets import clientbound as _cbl
 
@@ -541,6 +557,14 @@ def run_login(run, rng, pv, order, threshold, terminal, server_id, auth,
                     bad('login/session-join', 'session join request missing '
                         'or carrying the wrong server hash', expected=exp,
                         got=[(r['path'], r['json']) for r in reqs][:2])
+                elif state.get('session_requests_when_response_written',
+                               n_req0 + 1) <= n_req0:
+                    bad('login/session-join-after-response', 'the client '
+                        'began to write its encryption response before the '
+                        'session service had seen the join request (a server '
+                        'that verifies the user on receipt refuses the login)')
+                else:
+                    run.count('joins_seen_before_the_response')
             elif reqs:
                 bad('login/unexpected-join', 'session service contacted '
                     'although offline / unauthenticated',
